@@ -20,7 +20,11 @@ pub enum Timer {
     Retransmit,
     AckDelay,
     Inactivity,
+    RecoveryPipe,
+    SynAckResend,
 }
+
+pub const ALL: [Timer; 5] = [Timer::Retransmit, Timer::AckDelay, Timer::Inactivity, Timer::RecoveryPipe, Timer::SynAckResend];
 
 impl Timer {
     fn name(self) -> &'static str {
@@ -28,6 +32,8 @@ impl Timer {
             Timer::Retransmit => "retransmission",
             Timer::AckDelay => "delayed-ACK",
             Timer::Inactivity => "inactivity",
+            Timer::RecoveryPipe => "recovery pipe-expiry",
+            Timer::SynAckResend => "SYN-ACK resend",
         }
     }
 }
@@ -76,6 +82,8 @@ pub fn check_deadline_wakeups(rep: &mut CaseReport, property: &'static str, even
                         Timer::Retransmit => snap.timers.retransmit,
                         Timer::AckDelay => snap.timers.ack_delay,
                         Timer::Inactivity => snap.timers.remote_inactivity,
+                        Timer::RecoveryPipe => snap.timers.recovery_pipe_expiry,
+                        Timer::SynAckResend => snap.timers.syn_ack_resend,
                     };
                     if let Some(i) = inst {
                         let d = if i > now { e.t + (i - now).as_micros() as Us } else { e.t };
